@@ -277,6 +277,9 @@ func c09vJudge(p *c09vProbe, srv *zzvenv.VServer, tCancel int64) error {
 		if !ok {
 			return fmt.Errorf("%s: result of type %T", p.scn.name, p.res)
 		}
+		if sr == nil {
+			return fmt.Errorf("%s: Scan returned a non-nil scan.Result that holds a nil *ScanResult (a typed nil): the engine would queue it as a detection and the logger would crash on it", p.scn.name)
+		}
 		if sr.IP != p.ip.String() || sr.Port != p.port || sr.ScanType != "socks" || sr.Version != 5 || sr.ID() != fmt.Sprintf("%s:%d", p.ip, p.port) {
 			return fmt.Errorf("%s: record {scan:%q version:%d ip:%q port:%d} does not carry the probed target %s:%d", p.scn.name, sr.ScanType, sr.Version, sr.IP, sr.Port, p.ip, p.port)
 		}
@@ -436,7 +439,7 @@ func verifC09Virt(c *drv.Ctx) {
 		bound = 3
 	}
 	c.R.Rule = fmt.Sprintf("the real socks5.Scanner.Scan on the virtual TCP network (zzvenv/vnet.go; dial timeout %v, data timeout %v): every scripted peer behaviour = connect outcome {accept at once, accept after 700 ms, accept after the dial timeout, refuse, refuse late, SYN dropped, nothing listening} x {peer reads the greeting first, peer answers unasked} x reply {6 two-byte replies in one segment, 05|00 and 05|01 split with gaps 0/400 ms/1.5 s, late by 600 ms/1.5 s, slow split, one byte then close/reset/stall, nothing then close/reset/stall, 0500/0501 + 300 bytes} x after the reply {stay open, close, reset, junk}; "+
-		"(i) each alone under every schedule with deviation bound %d and the cancel event at every choice point; (ii) each as the second probe of a scanner whose first probe met a real proxy (state carried between probes); (iii) pairs of concurrent probes on one scanner, bound %d. Oracle: timeline model, exact on the virtual clock; "+
+		"(i) each alone under every schedule with deviation bound %d and the cancel event at every choice point; (ii) each as the second probe of a scanner whose first probe met a real proxy (state carried between probes); (iii) pairs of concurrent probes on one scanner, bound %d; (iv) every accepting behaviour once more with a data timeout of 0 (a deadline already passed: the probe ends the instant the connection is there). Oracle: timeline model, exact on the virtual clock; "+
 		"non-trivial = executions in which a connection was established", c09vDialT, c09vDataT, bound, bound)
 	idx := 0
 	positive := &scns[0] // accept+0s/reads-greeting/reply=0500/stay-open
@@ -479,6 +482,56 @@ func verifC09Virt(c *drv.Ctx) {
 		for _, b := range reps {
 			runOne("concurrent: "+a.name+" || "+b.name, nil, []*c09vScn{a, b}, true, bound)
 		}
+	}
+	// (iv) the boundary setting: a data timeout of 0 arms a deadline that has already passed, so every
+	// exchange fails the moment the connection is there - whatever the peer does, the probe cannot wait
+	for i := range scns {
+		sc := &scns[i]
+		if sc.connect != "accept" || sc.cdelay >= c09vDialT {
+			continue
+		}
+		idx++
+		if !c.Mine(idx) || c.Expired() {
+			continue
+		}
+		var res scan.Result
+		var err error
+		var at int64
+		var world *zzvenv.World
+		cfg := func(s *vs.Sched) {
+			world = zzvenv.NewWorld()
+			world.Servers = map[string]*zzvenv.VServer{"10.9.0.10:1080": {Connect: sc.connect, ConnectDelay: sc.cdelay, Script: sc.steps}}
+			s.Horizon = 20000
+		}
+		main := func() {
+			scanner := NewScanner(WithDialTimeout(c09vDialT), WithDataTimeout(0))
+			res, err = scanner.Scan(context.Background(), &scan.Request{DstIP: net.IPv4(10, 9, 0, 10).To4(), DstPort: 1080})
+			at = vs.VNow()
+		}
+		check := func(x *vs.Exec) (string, error) {
+			if len(x.Crashes) > 0 {
+				return "crash", fmt.Errorf("crash in %s: %s", x.Crashes[0].Thread, x.Crashes[0].Value)
+			}
+			if x.Deadlock || x.Livelock || !x.MainDone {
+				return "hang", fmt.Errorf("%s with a data timeout of 0: Scan never returned (parked: %v)", sc.name, x.Blocked)
+			}
+			if time.Duration(at) != sc.cdelay {
+				return "late", fmt.Errorf("%s with a data timeout of 0: Scan returned after %v, the connection was there after %v and no exchange may wait", sc.name, time.Duration(at), sc.cdelay)
+			}
+			if res != nil || err == nil {
+				return "bad", fmt.Errorf("%s with a data timeout of 0: record=%v err=%v, want no record and an error", sc.name, res != nil, err)
+			}
+			for _, cn := range world.Servers["10.9.0.10:1080"].Conns {
+				if !cn.Closed() {
+					return "leak", fmt.Errorf("%s with a data timeout of 0: connection left open", sc.name)
+				}
+			}
+			return "e", nil
+		}
+		r := vs.Explore(vs.Options{Bound: 1, Iterate: true, Deadline: c.Deadline}, cfg, main, check)
+		name := "zero-data-timeout: " + sc.name
+		c.Explore(name, r, func(v vs.Violation) string { return name })
+		c.Nontrivial(1)
 	}
 	c.Set("scenarios", len(scns))
 }
